@@ -9,9 +9,9 @@
 #include "drv.h"
 
 #define NTOK 6
-#define MAXOPS 5
+#define MAXOPS 6
 #define MAXACT 4
-enum { O_PUSH, O_PUSHMANY, O_POP, O_POPMANY, O_POPWAIT, O_POPTIMED, O_REMOVE, O_REPUSH, O_SIZE };
+enum { O_PUSH, O_PUSHMANY, O_POP, O_POPMANY, O_POPWAIT, O_POPTIMED, O_REMOVE, O_REPUSH, O_SIZE, O_POPLONG, O_POPTIMEDLONG };
 typedef struct {
     int op, u, v, ctx, k;
 } op_t;
@@ -152,6 +152,35 @@ static void do_op(actor_t *a, op_t *o)
                 take(a, u);
             break;
         }
+        case O_POPLONG: {
+            /* a blocking pop that must not come back empty-handed: the unit is
+             * pushed while it waits, long before the (virtual) time-out */
+            ABT_thread t = ABT_THREAD_NULL;
+            EV("\"e\":\"Call\",\"t\":%d,\"op\":\"pop\",\"k\":1,\"tl\":%d,\"long\":1", id, TL(o));
+            CHK(ABT_pool_pop_wait_thread_ex(g_pool, &t, 1000.0, pop_ctx(TL(o) ? 2 : 0)));
+            int u = tok_id(t);
+            if (u)
+                EV("\"e\":\"Ret\",\"t\":%d,\"op\":\"pop\",\"r\":[%d]", id, u);
+            else
+                EV("\"e\":\"Ret\",\"t\":%d,\"op\":\"pop\",\"r\":[]", id);
+            if (u > 0)
+                take(a, u);
+            break;
+        }
+        case O_POPTIMEDLONG: {
+            ABT_unit un = ABT_UNIT_NULL;
+            EV("\"e\":\"Call\",\"t\":%d,\"op\":\"pop\",\"k\":1,\"tl\":0,\"long\":1", id);
+            double abst = (double)abtv_now_ns() * 1e-9 + 1000.0;
+            CHK(ABT_pool_pop_timedwait(g_pool, &un, abst));
+            int u = unit_tok(un);
+            if (u)
+                EV("\"e\":\"Ret\",\"t\":%d,\"op\":\"pop\",\"r\":[%d]", id, u);
+            else
+                EV("\"e\":\"Ret\",\"t\":%d,\"op\":\"pop\",\"r\":[]", id);
+            if (u > 0)
+                take(a, u);
+            break;
+        }
         case O_REMOVE: {
             /* legal only for a unit the caller knows to be in the pool: the
              * caller is the only consumer and pushes the unit itself first */
@@ -247,6 +276,49 @@ static void scenario(const char *name, uint64_t seed)
         for (int i = 0; i < 3; i++)
             prod[i] = cons[i] = 1;
     }
+    actor_t mainact;
+    memset(&mainact, 0, sizeof mainact);
+    mainact.id = 0;
+    if (shape == 2) {
+        /* C19: one producer pushes every token one by one; the consumers
+         * issue exactly NTOK blocking pops between them */
+        if (access == 0)
+            abtv_fail("broken:shape2-needs-shared-pool", ABTV_EXIT_BROKEN);
+        int ncons = 1; /* with several consumers an early empty return is legitimate (the time is a hint) */
+        nact = 1 + ncons;
+        for (int i = 0; i < nact; i++) {
+            memset(&g_act[i], 0, sizeof g_act[i]);
+            g_act[i].id = i + 1;
+        }
+        for (int u = 1; u <= NTOK; u++)
+            take(&g_act[0], u);
+        g_act[0].nops = 0;
+        int ntok = NTOK;
+        /* MAXOPS limits a script: push in pairs where needed */
+        for (int j = 0; j < MAXOPS && ntok > 0; j++) {
+            op_t *o = &g_act[0].ops[g_act[0].nops++];
+            memset(o, 0, sizeof *o);
+            int two = (ntok > (MAXOPS - j));
+            o->op = two ? O_PUSHMANY : O_PUSH;
+            o->ctx = (g_kind == 2) ? rnd(2) : 0;
+            ntok -= two ? 2 : 1;
+        }
+        int left = NTOK;
+        for (int i = 1; i < nact; i++) {
+            int mine = (i == nact - 1) ? left : NTOK / ncons;
+            if (mine > MAXOPS)
+                abtv_fail("broken:shape2-script", ABTV_EXIT_BROKEN);
+            left -= mine;
+            g_act[i].nops = mine;
+            for (int j = 0; j < mine; j++) {
+                op_t *o = &g_act[i].ops[j];
+                memset(o, 0, sizeof *o);
+                o->op = rnd(3) ? O_POPLONG : O_POPTIMEDLONG;
+                o->ctx = (g_kind == 2) ? (rnd(2) ? 2 : 0) : 0;
+            }
+        }
+        goto launch;
+    }
     /* distribute tokens among producers */
     int np = 0, pidx[MAXACT];
     for (int i = 0; i < nact; i++) {
@@ -261,9 +333,6 @@ static void scenario(const char *name, uint64_t seed)
         take(&g_act[pidx[(u - 1) % np]], u);
     /* a prefix pushed by the main thread so that pops find something */
     int pre = rnd(3);
-    actor_t mainact;
-    memset(&mainact, 0, sizeof mainact);
-    mainact.id = 0;
     for (int i = 0; i < pre; i++) {
         actor_t *src = &g_act[pidx[rnd(np)]];
         int u = give(src);
@@ -305,6 +374,7 @@ static void scenario(const char *name, uint64_t seed)
                 o->k = 1 + rnd(4); /* microseconds of (virtual) waiting */
         }
     }
+launch:
     if (nact == 1) {
         g_act[0].id = 0;
         actor_main(&g_act[0]);
